@@ -40,6 +40,8 @@ def run():
     common.load_mir('std')
     items = items_for(t)
     items += [dict(name=n, prog=p.hex(), vm='mbuff', min_mbuff=32, min_mem=8, role='clif-program') for n, p in jitwhole.fam_F2()]
+    # a back edge to the very first instruction (r4 is zero at entry under the interpreter and in the CLIF variables)
+    items.append(dict(name='loop-to-first-instruction', prog=(insn(0x07, 4, 0, 0, 1) + insn(0xa5, 4, 0, -2, 3) + insn(0xbf, 0, 4) + insn(0x95)).hex(), vm='mbuff', min_mbuff=8, min_mem=1, role='clif-program'))
     out, cands = clifcheck.run_items(items, ('C04',), timeout)
     rep.merge_counts(out)
     for s in out.get('stubs', []): rep.assumptions.append('stub: ' + s)
